@@ -508,3 +508,98 @@ Proof.
     lra.
   - assert (get T r (nc - 1)%nat / get T r c * get T i c <= 0) by nra. lra.
 Qed.
+(* ------------------------------------------------------------------ generalisation: the certifying
+   columns need not be contiguous -- multiplier k is read off column `ac k` (T0[k', ac k] = delta);
+   comb_aff L a ... is the instance ac k = a + k.  Used for the minmax tableau, whose normalisation row
+   has its unit entry in the right-hand-side column. *)
+Definition comb_affG (L : nat) (ac : nat -> nat) (nc : nat) (T0 : matQ) (obj row : nat -> Q) : Prop :=
+  forall j, (j < nc)%nat -> row j == obj j + sumQ L (fun k => (row (ac k) - obj (ac k)) * get T0 k j).
+Definition comb_linG L ac nc T0 row := comb_affG L ac nc T0 (fun _ => 0) row.
+
+Lemma comb_aff_G L a nc T0 obj row : comb_aff L a nc T0 obj row <-> comb_affG L (fun k => (a + k)%nat) nc T0 obj row.
+Proof. reflexivity. Qed.
+
+Lemma comb_affG_ext L ac nc T0 obj r1 r2 :
+  (forall k, (k < L)%nat -> (ac k < nc)%nat) -> (forall j, (j < nc)%nat -> r1 j == r2 j) ->
+  comb_affG L ac nc T0 obj r1 -> comb_affG L ac nc T0 obj r2.
+Proof.
+  intros Ha He H1 j Hj. rewrite <- He by auto. rewrite (H1 j Hj). apply Qplus_comp; [reflexivity|].
+  apply sumQ_ext. intros k Hk. rewrite He by auto. reflexivity.
+Qed.
+Lemma comb_affG_sub L ac nc T0 obj ri rr mu :
+  comb_affG L ac nc T0 obj ri -> comb_linG L ac nc T0 rr -> comb_affG L ac nc T0 obj (fun j => ri j - mu * rr j).
+Proof.
+  intros Hi Hr j Hj. cbv beta. rewrite (Hi j Hj), (Hr j Hj).
+  transitivity (obj j + sumQ L (fun k => 1 * ((ri (ac k) - obj (ac k)) * get T0 k j)
+                                        + (- mu) * ((rr (ac k) - 0) * get T0 k j))).
+  - rewrite sumQ_lin. ring.
+  - apply Qplus_comp; [reflexivity|]. apply sumQ_ext. intros. ring.
+Qed.
+Lemma comb_linG_scale L ac nc T0 rr s :
+  comb_linG L ac nc T0 rr -> comb_linG L ac nc T0 (fun j => s * rr j).
+Proof.
+  intros Hr j Hj. cbv beta. rewrite (Hr j Hj).
+  transitivity (0 + sumQ L (fun k => s * ((rr (ac k) - 0) * get T0 k j))).
+  - rewrite sumQ_scale. ring.
+  - apply Qplus_comp; [reflexivity|]. apply sumQ_ext. intros. ring.
+Qed.
+Lemma comb_linG_init L ac nc T0 i :
+  (i < L)%nat ->
+  (forall k j, (k < L)%nat -> (j < L)%nat -> get T0 k (ac j) == if Nat.eqb k j then 1 else 0) ->
+  comb_linG L ac nc T0 (rowf T0 i).
+Proof.
+  intros Hi Hid j Hj. unfold rowf.
+  rewrite (sumQ_ext L _ (fun k => if Nat.eqb k i then get T0 k j else 0)).
+  - rewrite sumQ_delta. destruct (Nat.ltb_spec i L); [ring|lia].
+  - intros k Hk. rewrite (Hid i k Hi Hk). destruct (Nat.eqb_spec k i), (Nat.eqb_spec i k); try (exfalso; lia); ring.
+Qed.
+Lemma pivoting_comb_linG_pivrow nr nc L ac T0 T c r :
+  wf nr nc T -> (r < nr)%nat -> (forall k, (k < L)%nat -> (ac k < nc)%nat) ->
+  comb_linG L ac nc T0 (rowf T r) -> comb_linG L ac nc T0 (rowf (pivoting T c r) r).
+Proof.
+  intros Hwf Hr Ha Hlin.
+  apply comb_affG_ext with (r1 := fun j => (/ get T r c) * rowf T r j); auto.
+  - intros j Hj. unfold rowf. rewrite (get_pivoting nr nc) by auto. rewrite Nat.eqb_refl. unfold Qdiv. ring.
+  - apply comb_linG_scale; auto.
+Qed.
+Lemma pivoting_comb_affG_other nr nc L ac T0 obj T c r i :
+  wf nr nc T -> (r < nr)%nat -> (i < nr)%nat -> i <> r -> (forall k, (k < L)%nat -> (ac k < nc)%nat) ->
+  comb_linG L ac nc T0 (rowf T r) -> comb_affG L ac nc T0 obj (rowf T i) ->
+  comb_affG L ac nc T0 obj (rowf (pivoting T c r) i).
+Proof.
+  intros Hwf Hr Hi Hne Ha Hlin Haff.
+  apply comb_affG_ext with (r1 := fun j => rowf T i j - (get T i c / get T r c) * rowf T r j); auto.
+  - intros j Hj. unfold rowf. rewrite (get_pivoting nr nc) by auto.
+    destruct (Nat.eqb_spec i r); [contradiction|]. unfold Qdiv. ring.
+  - apply comb_affG_sub; auto.
+Qed.
+
+(* unit columns for a subset S of the rows (scripted initial pivots build a basis row by row) *)
+Definition unit_colsP (nr L : nat) (S : nat -> Prop) (T : matQ) (basis : list nat) : Prop :=
+  forall i k, (i < L)%nat -> S i -> (k < nr)%nat -> get T k (nth i basis 0%nat) == if Nat.eqb k i then 1 else 0.
+
+Lemma unit_colsP_all nr L (S : nat -> Prop) T basis :
+  (forall i, (i < L)%nat -> S i) -> unit_colsP nr L S T basis -> unit_cols nr L T basis.
+Proof. intros HS Hu i k Hi Hk. apply Hu; auto. Qed.
+
+Lemma unit_colsP_pivoting nr nc L (S : nat -> Prop) T basis c r :
+  wf nr nc T -> (L <= nr)%nat -> length basis = L -> (r < L)%nat -> (c < nc)%nat ->
+  (forall i, (i < L)%nat -> (nth i basis 0 < nc)%nat) ->
+  ~ get T r c == 0 ->
+  unit_colsP nr L S T basis ->
+  (forall i, (i < L)%nat -> S i -> i <> r -> get T r (nth i basis 0%nat) == 0) ->
+  unit_colsP nr L (fun i => S i \/ i = r) (pivoting T c r) (set_nth basis r c).
+Proof.
+  intros Hwf HL Hlen Hr Hc Hb Hp Hu Hz i k Hi HS Hk.
+  assert (Hrn : (r < nr)%nat) by lia.
+  destruct (Nat.eq_dec i r) as [->|Hir].
+  - rewrite nth_set_nth_eq by lia. rewrite (get_pivoting nr nc) by auto.
+    destruct (Nat.eqb k r); field; auto.
+  - destruct HS as [HS|HS]; [|contradiction].
+    rewrite nth_set_nth_neq by auto. rewrite (get_pivoting nr nc) by auto.
+    pose proof (Hz i Hi HS Hir) as Hzz.
+    pose proof (Hu i k Hi HS Hk) as Hk'.
+    destruct (Nat.eqb_spec k r) as [->|Hkr].
+    + destruct (Nat.eqb_spec r i); [congruence|]. rewrite Hzz. field; auto.
+    + rewrite Hzz, Hk'. field; auto.
+Qed.
